@@ -724,7 +724,7 @@ func (in *Interp) makeSlice(t types.Type, ln, cp *Term) Value {
 			in.goPanic("runtime error: makeslice: len out of range")
 		}
 		// a symbolic length that can exceed 2^48 can exhaust memory or panic
-		_, model := in.query()
+		model := in.bigModel()
 		in.Events = append(in.Events, Event{Kind: "cost", Msg: fmt.Sprintf("make with length > %d (length not bounded by data sizes)", lim), Where: in.where(), Model: model, Stack: in.stackNames(), Extra: map[string]interface{}{"len": ln.String()}})
 		in.end("alloc", "make too large")
 	}
